@@ -1256,7 +1256,12 @@ def wl_coxeter(run, rng, idx):
         if W in _prov and ri.maxabs(W.proj_data) <= 300:
             check_action(run, W, rng, ("coxeter-word", name, route, L), reps=1)
     comp = rep.isometries(words + list(gens))                # P (composite)
-    comp.inv()                                               # P provenance
+    # (a 30-letter word in a Tits-Vinberg representation with parameters down to -5
+    # has entries ~1e19: its numerical inverse is outside any stressed class and
+    # np.linalg.inv may find it singular -- thorough seed 5; the inverse of the
+    # composite is asked for only while its entries stay below 1e6)
+    if ri.maxabs(comp.proj_data) <= 1e6:
+        comp.inv()                                           # P provenance
     A, B = rep[words[0]], rep[words[1]]
     (A @ B).inv()                                            # P provenance
     if idx < 1:
